@@ -277,6 +277,23 @@ fn check_partition(e: &DynError, err: &Error, enc_params: &BTreeMap<String, Stri
             }
         }
     }
+    // every accessor of a parameter set answers for that set: len / is_empty / iter / IntoIterator
+    // / size_hint / Index agree with the entries it exposes
+    for (set_name, params) in [("safe_params", err.safe_params()), ("unsafe_params", err.unsafe_params())] {
+        let n = params.iter().count();
+        let mut it = params.iter();
+        let hint = it.size_hint();
+        let first = it.next();
+        let into_n = (&params).into_iter().count();
+        let indexed = vcommon::catch(|| params.iter().all(|(k, v)| format!("{:?}", &params[k]) == format!("{:?}", v)));
+        if params.len() != n || params.is_empty() != (n == 0) || into_n != n || hint.0 > n || hint.1.map(|h| h < n).unwrap_or(false) || first.is_some() != (n > 0) || indexed != Ok(true) {
+            r.violation(
+                sig("parameter-set-accessors-disagree"),
+                format!("{}: {} entries by iteration, len() = {}, is_empty() = {}, IntoIterator {}, size_hint {:?}, Index agrees: {:?}", set_name, n, params.len(), params.is_empty(), into_n, hint, indexed),
+                case.clone(),
+            );
+        }
+    }
     for k in safe.keys().chain(unsafe_.keys()) {
         if !enc_params.contains_key(k) {
             r.violation(sig("set-has-unencoded-parameter"), format!("parameter set contains {} which is not an encoded parameter", k), case.clone());
@@ -293,6 +310,13 @@ fn check_partition(e: &DynError, err: &Error, enc_params: &BTreeMap<String, Stri
 }
 
 fn check_error(e: &DynError, r: &mut Report, all_constructions: bool) {
+    // encoding never panics: a parameter it cannot render is omitted
+    if let Err(p) = vcommon::catch(|| check_error_inner(e, r, all_constructions)) {
+        r.violation(format!("C17|encode|panic|{}", shape_class(e)), format!("encoding / constructing an error from {:?} panicked: {}", describe(e), p), json!({"error": describe(e), "via": "encode"}));
+    }
+}
+
+fn check_error_inner(e: &DynError, r: &mut Report, all_constructions: bool) {
     r.states += 1;
     // encode, twice (fresh ids differ), and with a supplied id
     r.evaluations += 3;
@@ -388,7 +412,12 @@ pub fn run(args: &Args) -> Report {
     // ---- part 1: one parameter of every shape x value, safe and unsafe, skipped-or-null
     let keys = [Leaf::Str, Leaf::F64, Leaf::Enum];
     let depth = args.tier.pick(2, 3);
-    let shapes = space::shapes_up_to(depth, &CONJURE_LEAVES, &keys);
+    let mut shapes = space::shapes_up_to(depth, &CONJURE_LEAVES, &keys);
+    // every kind of map key (binary, boolean, integer, uuid, rid, token, datetime keys are Conjure
+    // map keys too), at depth 2
+    let all_keys = [Leaf::Bytes, Leaf::Bool, Leaf::I32, Leaf::I64, Leaf::Uuid, Leaf::Rid, Leaf::Token, Leaf::DateTime];
+    let have: std::collections::BTreeSet<String> = shapes.iter().map(|s| s.text()).collect();
+    shapes.extend(space::shapes_up_to(2, &[Leaf::Str, Leaf::I32, Leaf::Bytes], &all_keys).into_iter().filter(|s| !have.contains(&s.text())));
     let cs = codes();
     let p1 = shapes
         .par_iter()
